@@ -34,6 +34,11 @@ if int(variant) >= 9:
           "for public usage patterns relevant to this property whose numerical result the test suite does not pin down, and seed the defect on "
           "the code path such a pattern takes (helper functions, default arguments, convenience wrappers, operator sugar, __call__/__getitem__ "
           "desugaring, to_funsor/to_data registrations for Python builtins, pretty-printing/quote round trips where the property covers them).\n")
+if int(variant) >= 10:
+    t += ("\nFor this variant let MEASUREMENT pick the site: instrument a run of the relevant test files (sys.settrace / a counting decorator / "
+          "`python -m trace --count` — the `coverage` package may not be installed) to list functions and branches on this property's path "
+          "that funsor's suite never executes, or executes with a single argument kind / shape class only; seed the defect in such a branch so "
+          "that it is reachable from the public API. Say in meta.json which measurement justified the choice.\n")
 t += "\n\nSites ALREADY USED by earlier seeded changes (for any property) — choose a DIFFERENT function and mechanism:\n" + "\n".join(used) + "\n"
 open(f'/tmp/seedprompt_{pid}_{variant}.txt','w').write(t)
 print(f'/tmp/seedprompt_{pid}_{variant}.txt')
